@@ -4,6 +4,22 @@ in the contract files themselves (contracts/fns/*.vc)."""
 
 # property -> {"units": [verus unit names], "kani": [harness group names], "undecided": [clauses not decided]}
 PROPS = {
+    "C02": {
+        "units": ["U4_end_records", "U5_header_writers"],
+        "kani": ["types"],
+        "technique": "Verus contracts on the record/header serialisers against APPNOTE layout spec functions (the independent parser), with inverse lemmas",
+        "level_text": "Deductive proof, for every entry metadata value and every sink behaviour (short writes, failure at any call), that each serialiser either reports an error or has written exactly the APPNOTE 4.3.7 / 4.3.12 / 4.3.14-16 / 4.5.3 byte layout of its argument: local header, back-patch of CRC/sizes (in place, nothing else touched), central header with the ZIP64 record carrying exactly the saturated fields, end records; the UTF-8 flag is bit 11 exactly for non-ASCII names; name/extra lengths that do not fit 16 bits are refused before anything is written; version-needed is at least what the entry uses.",
+        "level_note": "the writer state machine (ZipWriter: offsets recorded = actual positions, ZIP64 end-record decision, comment length check, no overlap) is unit U7 and not under contract yet: listed as undecided; utf8()/is_ascii are vstd/uninterpreted string specs; `impl Write for &mut [u8]` assumed at one call site (T7x)",
+        "undecided": ["ZipWriter state machine: recorded offsets/counts/sizes equal actual positions, finalize's ZIP64 decision, archive comment length refusal (unit U7)", "stored CRC/sizes match the decoded data (compressors assumed; writer accounting is unit U7)"],
+    },
+    "C08": {
+        "units": ["U4_end_records", "U5_header_writers", "U6_central_parser"],
+        "kani": ["types"],
+        "technique": "Verus contracts: ZIP64 writer layouts vs APPNOTE spec functions and the reader's extra-field walk proved against an APPNOTE walk spec (all u64 values, no enumeration)",
+        "level_text": "Deductive proof for all 64-bit values (sizes and offsets are symbolic, including 0xFFFFFFFF and its neighbours): the central ZIP64 record carries exactly the fields whose 32-bit header field is saturated, in the fixed order; the local one carries both sizes; the reader's extra-field walk substitutes exactly the saturated fields in that order for any well-formed extra field in any record order (loop invariant against a recursive APPNOTE walk); ZIP64 end record and locator are written and parsed per APPNOTE with inverse lemmas; back-patching refuses a compressed size above 4 GiB without large_file.",
+        "level_note": "the writer's thresholds in ZipWriter::write/finalize and get_directory_counts (units U7/U8) are not under contract yet: listed as undecided",
+        "undecided": ["write() refusing >4GiB without large_file and poisoning the writer; finalize() ZIP64 end-record decision (unit U7)", "get_directory_counts: ZIP64 locator probe and archive offset (unit U8)"],
+    },
     "C04": {
         "units": ["U9_crc"],
         "kani": [],
@@ -13,12 +29,12 @@ PROPS = {
         "undecided": ["make_reader wraps every decoding variant in Crc32Reader with the entry's declared CRC and the AE-2 flag (unit U8, not built yet)"],
     },
     "C03": {
-        "units": ["U4_end_records"],
+        "units": ["U4_end_records", "U6_central_parser"],
         "kani": ["types"],
         "technique": "Verus contracts on the end-record search/parsers against APPNOTE spec functions; Kani complete harness for the attribute-to-mode table",
         "level_text": "Deductive proof over all byte strings and all I/O outcomes: the end-of-central-directory search returns the last signature occurrence whose record fits (so trailing garbage is tolerated), every field equals the APPNOTE 4.3.16/4.3.15/4.3.14 decode of the bytes at that offset, the ZIP64 forward search returns the first record at or after the nominal offset, and an error is returned only on a device fault or when no well-formed record exists in the window. unix_mode() is proved for all 2^32 attribute words x 256 systems with Kani.",
-        "level_note": "I/O model of contracts/shims/io.rs; central-header parsing, ZIP64 extra fields, directory walk, name lookup and data offsets (units U5, U6, U8) are not under contract yet and are listed as undecided; decoders assumed",
-        "undecided": ["central directory header decode, ZIP64 extra-field substitution, archive offset shift (unit U5)", "directory walk, names_map last-wins, by_name/by_index not-found, find_content data offset (units U6/U8)", "entry content equals original bytes (decoders assumed, CRC layer = C04)"],
+        "level_note": "I/O model of contracts/shims/io.rs; directory walk, name lookup and data offsets (unit U8) are not under contract yet and are listed as undecided; Vec<u8>::from_cp437 is an assumed contract in Verus (iterator adapters) decided by the Kani cp437 group; derived PartialEq assumed structural; decoders assumed",
+        "undecided": ["directory walk, names_map last-wins, by_name/by_index not-found, find_content data offset (units U6/U8)", "entry content equals original bytes (decoders assumed, CRC layer = C04)"],
     },
     "C06": {
         "units": ["U3_paths"],
